@@ -404,7 +404,7 @@ def _ellipse_phantom_2d(space, ellipses):
             # Since the points are rotated, we cannot do anything directional
             # without more logic
             max_radius = np.sqrt(
-                np.abs(mat).dot([a_squared, b_squared]))
+                np.abs(mat.T).dot([a_squared, b_squared]))
             idx, shapes = _getshapes_2d(center, max_radius, space.shape)
 
             subgrid = [g[idi] for g, idi in zip(grid, shapes)]
@@ -542,8 +542,10 @@ def _ellipsoid_phantom_3d(space, ellipsoids):
             # Calculate the points that could possibly be inside the volume
             # Since the points are rotated, we cannot do anything directional
             # without more logic
+            # `mat` maps grid offsets to the ellipsoid system, hence the
+            # extent along grid axis i is governed by column i of `mat`
             max_radius = np.sqrt(
-                np.abs(mat).dot([a_squared, b_squared, c_squared]))
+                np.abs(mat.T).dot([a_squared, b_squared, c_squared]))
             idx, shapes = _getshapes_3d(center, max_radius, space.shape)
 
             subgrid = [g[idi] for g, idi in zip(grid, shapes)]
